@@ -66,7 +66,6 @@ impl MT191 {
 
         verify_parser_complete(&parser)?;
 
-
         Ok(MT191 {
             field_20,
             field_21,
